@@ -1,4 +1,5 @@
 import TeleportModel.Model.GenesisKv
+import TeleportModel.Model.Vesting
 /-
 C13 — genesis export / import of the xibc, aggregate and rvesting module state.
 
@@ -603,6 +604,65 @@ def initRvesting (pool : Bytes) (bal : Balances) (g : RvGenesis) : Outcome RvSta
 
 /-- `rvesting Keeper.ExportGenesis`: parameters only (`From` = "", `InitReward` = empty) -/
 def exportRvesting (p : Store) : RvGenesis := { params := exportParams p, sender := [], fromValid := false, initReward := [] }
+
+
+/-! ## x/rvesting parameters, structured: every list the module's validator accepts (unsorted, zero amounts, …) -/
+
+/-- the rvesting parameter set as stored (`EnableVesting`, `PerBlockReward` in the order and with the amounts it was given) -/
+structure RvParams where
+  enable : Bool
+  reward : List Vesting.Entry
+  deriving DecidableEq
+
+/-- cosmos-sdk v0.45.2 `reDnmString`: a letter, then 2 to 127 letters, digits, slashes or hyphens (the characters `: . _` are
+accepted only from v0.46 on) -/
+def rvDenomTail (c : Char) : Bool := c.isAlphanum || c == '/' || c == '-'
+def rvValidDenom (d : String) : Bool :=
+  match d.toList with
+  | [] => false
+  | c :: cs => c.isAlpha && cs.all rvDenomTail && 2 ≤ cs.length && cs.length ≤ 127
+
+/-- `validatePerBlockReward` (shared by SetParamSet, parameter-change proposals and — since /repo 7695f9c — genesis validation):
+non-empty, valid distinct denominations, non-nil non-negative amounts; NOT required: sorted, non-zero -/
+def validateReward (es : List Vesting.Entry) : Bool :=
+  !es.isEmpty &&
+  es.all (fun e => rvValidDenom e.denom && (match e.amount with | some a => decide (0 ≤ a) | none => false)) &&
+  decide ((es.map (·.denom)).Nodup)
+
+def validateRvParams (p : RvParams) : Bool := validateReward p.reward
+
+/-- `Keeper.ExportGenesis` = `NewGenesisState(GetParams())`: the parameters exactly as stored -/
+def exportRvParams (p : RvParams) : RvParams := p
+
+/-- `Keeper.InitGenesis` → `SetParamSet`: validates every field, panics on failure -/
+def setRvParams (p : RvParams) : Outcome RvParams :=
+  if validateRvParams p then .ok p else .panic "SetParamSet: invalid PerBlockReward"
+
+/-- a parameter-change proposal (`Subspace.Update` of PerBlockReward, then of EnableVesting) -/
+def updateRvParams (cur : RvParams) (p : RvParams) : Outcome RvParams :=
+  if validateReward p.reward then .ok p else .err "invalid PerBlockReward"
+
+/-- what `sdk.NewCoins` does to a list (sort by denomination, drop zero amounts) — the "canonical form" a seeded change
+applied inside `NewGenesisState`; NOT part of the export -/
+def insertEntry (e : Vesting.Entry) : List Vesting.Entry → List Vesting.Entry
+  | [] => [e]
+  | x :: r => if e.denom < x.denom then e :: x :: r else x :: insertEntry e r
+def canonCoins (es : List Vesting.Entry) : List Vesting.Entry :=
+  (es.filter (fun e => e.amount != some 0)).foldr insertEntry []
+
+def asciiBytes (s : String) : Bytes := s.toList.map (fun c => UInt8.ofNat c.toNat)
+
+/-- legacy-amino JSON of `sdk.Coins` as the params store holds it -/
+def rvRewardJson (es : List Vesting.Entry) : Bytes :=
+  asciiBytes ("[" ++ joinWith "," (es.map fun e =>
+    "{\"denom\":\"" ++ e.denom ++ "\",\"amount\":\"" ++ toString (e.amount.getD 0) ++ "\"}") ++ "]")
+
+def kRvEnable : Bytes := asciiBytes "rvesting/EnableVesting"
+def kRvReward : Bytes := asciiBytes "rvesting/PerBlockReward"
+
+/-- the two entries of the `rvesting/` parameter subspace -/
+def rvParamsKV (p : RvParams) : List (Bytes × Bytes) :=
+  [(kRvEnable, asciiBytes (if p.enable then "true" else "false")), (kRvReward, rvRewardJson p.reward)]
 
 /-! ## the modelled keeper operations as a datatype (for reachability) -/
 
